@@ -1620,10 +1620,11 @@ class Pipeline:
         This value is `None` if no errors have occurred during
         the pipeline execution.
         """
-        for f in self.functions:
-            if f.error_snapshot:
-                return f.error_snapshot
-        return None
+        # Return the snapshot of the most recent error (the timestamps are ISO formatted)
+        snapshots = [f.error_snapshot for f in self.functions if f.error_snapshot]
+        if not snapshots:
+            return None
+        return max(snapshots, key=lambda snapshot: snapshot.timestamp)
 
     def nest_funcs(
         self,
